@@ -202,6 +202,14 @@ def oracle_stage(case, rec):
         return "select distances increase"
     if len(set(sel)) != len(sel):
         return "duplicate selection"
+    if fin:
+        # C02_net_reported: the selections form an r-net, r = the last select distance
+        r = seld[-1]
+        if max(float(h) for h in o["haus"]) > r:
+            return "get_distance() reports %s, above the last select distance %s (selections are no r-net)" % (
+                max(float(h) for h in o["haus"]), r)
+        if min(fin) < r:
+            return "a selection was made at distance %s, below the last select distance %s" % (min(fin), r)
     return None
 
 
